@@ -157,13 +157,6 @@ func aminoDrive(args []string) error {
 		v++
 		do(aminoReq{Op: "translate", Dst: d.content, Cap: d.spare, Src: src})
 	}
-	// a codon made of one byte three times, for every byte value, onto every dst shape in turn (the zero value of a remembered
-	// "previous codon" is three NULs; the four real homopolymer codons are among them)
-	for b := 0; b < 256; b++ {
-		tr([]int{b, b, b})
-		tr([]int{'A', 'C', 'G', b, b, b})
-		tr([]int{b, b, b, b, b, b})
-	}
 	r := newRand(14001)
 	long, nrand, perLen := 30000, 60, 12
 	if thorough() {
@@ -186,6 +179,13 @@ func aminoDrive(args []string) error {
 		tw.emit(aminoCall(aminoReq{Op: "frames", Seq: big[:1<<20+1]}))
 	}
 
+	// a codon made of one byte three times, for every byte value, onto every dst shape in turn (the zero value of a remembered
+	// "previous codon" is three NULs; the four real homopolymer codons are among them)
+	for b := 0; b < 256; b++ {
+		tr([]int{b, b, b})
+		tr([]int{'A', 'C', 'G', b, b, b})
+		tr([]int{b, b, b, b, b, b})
+	}
 	// all 64 codons x 8 case patterns
 	up, lo := "ACGT", "acgt"
 	for i := 0; i < 4; i++ {
